@@ -1,6 +1,7 @@
 """Ownership rules for utils: OWN-IDSET (C37), ARENA-BOUNDS / ARENA-ALIGN (C38)."""
 from lib import synq as q
 from lib.core import rule
+from lib.inline import materialize
 
 IDSET = "utils/src/id_set.rs"
 ARENA = "utils/src/arena.rs"
@@ -40,6 +41,9 @@ def own_idset(ctx, r):
     holders = raw_ptr_types(items)
     ptr_fields = [fl["name"] for fl in st["fields"] if "*mut" in fl["ty"] or "*const" in fl["ty"] or any(h + "<" in fl["ty"] for h in holders if h != "IdSet")]
     buf_fields = [fl["name"] for fl in st["fields"] if fl["ty"].replace(" ", "").startswith("Vec<") and fl["name"] not in ptr_fields]
+    # the buffer values are pushed into: the Vec<T> (the retired ones are a Vec<Vec<T>>)
+    live = [fl["name"] for fl in st["fields"] if fl["ty"].replace(" ", "").startswith("Vec<") and not fl["ty"].replace(" ", "").startswith("Vec<Vec<") and fl["name"] in buf_fields]
+    live_buf = live[0] if len(live) == 1 else "current_buf"
     r.count("pointer-holding fields", len(ptr_fields), 2, IDSET)
     r.count("buffer fields", len(buf_fields), 2, IDSET)
     # (1) no field-wise Clone/Copy
@@ -70,13 +74,16 @@ def own_idset(ctx, r):
                 m = x["m"]
                 r.ob(m not in REALLOCATING, f"id_set.rs:{f['name']}:{x['recv']['f']}.{m}", IDSET, x["l"],
                      f"{f['name']} calls {x['recv']['f']}.{m}(), which can reallocate or shift a buffer that `{'`, `'.join(ptr_fields)}` point into")
-                if m == "push" and x["recv"]["f"] == "current_buf":
-                    # dominated by the capacity check that swaps in a fresh buffer
+                if m == "push" and x["recv"]["f"] == live_buf:
+                    # preceded by the capacity check that swaps in a fresh buffer (written in place or in a helper called before the push)
                     ok = False
-                    for y in q.walk(f["body"]):
-                        if y["k"] == "If" and y["l"] < x["l"] and "capacity" in q.show(y["c"]) and "len()" in q.show(y["c"]) and any(z["k"] == "Call" and q.show(z["f"]).endswith("mem::replace") for z in q.walk(y["t"])):
+                    flat = list(q.walk(materialize(f["body"], closures_only=False)))
+                    at = next((i for i, y in enumerate(flat) if y["k"] == "MethodCall" and y["m"] == "push" and y.get("l") == x["l"] and q.show(y["recv"]) == q.show(x["recv"])), len(flat))
+                    caps = {b for y in flat if y["k"] == "Local" and y.get("init") is not None and q.show(y["init"]).replace(" ", "") == f"self.{live_buf}.capacity()" for b in q.pat_bindings(y["pat"])} | {f"self.{live_buf}.capacity()"}
+                    for i, y in enumerate(flat[:at]):
+                        if y["k"] == "If" and any(z["k"] == "Call" and q.show(z["f"]).endswith("mem::replace") and live_buf in q.show(z["args"][0]) for z in q.walk(y["t"])):
                             c = q.show(y["c"]).replace(" ", "")
-                            ok = c in ("((self.current_buf.len()+1)>capacity)", "(self.current_buf.len()>=capacity)", "(self.current_buf.len()==capacity)")
+                            ok = any(c in (f"((self.{live_buf}.len()+1)>{cap})", f"(self.{live_buf}.len()>={cap})", f"(self.{live_buf}.len()=={cap})") for cap in caps)
                     r.ob(ok, f"id_set.rs:{f['name']}:push-without-capacity-check", IDSET, x["l"],
                          "current_buf.push must be preceded by `len + 1 > capacity` => swap in a fresh buffer: a push beyond capacity reallocates and every stored pointer dangles",
                          sample="insert: capacity check swaps the buffer before push")
@@ -96,7 +103,7 @@ def own_idset(ctx, r):
             if m["k"] == "Match":
                 for a in m["arms"]:
                     if "Occupied" in q.show_pat(a["pat"]):
-                        stores = any(x["k"] == "MethodCall" and x["m"] in ("push", "insert") and q.show(x["recv"]).startswith("self.id_to_ptr") for x in q.walk(a["body"]))
+                        stores = any(x["k"] == "MethodCall" and x["m"] in ("push", "insert") and any(q.show(x["recv"]).startswith("self." + pf) for pf in ptr_fields if "Vec<" in next(fl["ty"] for fl in st["fields"] if fl["name"] == pf)) for x in q.walk(a["body"]))
                         r.ob(not stores, "id_set.rs:insert:duplicate-path-stores-pointer", IDSET, a["l"], "the duplicate path must not record the pointer of the popped value")
     # (3b) membership, id and size queries answer from the index tables only: insert() swaps in a fresh buffer before it
     #      knows whether the value is a duplicate, so the occupancy of the storage buffers says nothing about membership
@@ -120,26 +127,52 @@ def own_idset(ctx, r):
         if f["vis"].startswith("pub") and f.get("ret") and ("*mut" in f["ret"] or "*const" in f["ret"] or "Ptr<" in f["ret"]):
             r.find(f"id_set.rs:{f['name']}:exposes-pointer", IDSET, f["l"], f"public {f['name']} returns {f['ret']}")
 
+def arena_layout(items):
+    """(position field, current buffer field, retired buffers field) of the arena's state struct, found by type: the byte
+    buffer is a Box<[..u8..]>, the retired ones a Vec of those, the write position the usize field."""
+    for st, _ in q.iter_items(items):
+        if st["k"] != "StructDef":
+            continue
+        tys = {fl["name"]: fl["ty"].replace(" ", "") for fl in st["fields"]}
+        cur = [n for n, t in tys.items() if t.startswith("Box<[") and "u8" in t]
+        old = [n for n, t in tys.items() if t.startswith("Vec<Box<[") and "u8" in t]
+        pos = [n for n, t in tys.items() if t == "usize"]
+        if len(cur) == 1 and len(old) == 1 and len(pos) == 1:
+            return pos[0], cur[0], old[0]
+    return None
 
-@rule("ARENA-BOUNDS", ["C38"], "an arena write is bounded by the buffer it writes into: switching buffers resets the offset and the new buffer holds value plus worst-case padding; old buffers are kept")
-def arena_bounds(ctx, r):
+
+def arena_alloc(ctx, r):
+    """Arena::alloc with its helpers (closures and methods of this file) expanded in place."""
     items = ctx.file_items(ARENA)
     if items is None:
         r.missing("arena.rs")
-        return
+        return None, None, None
     f = q.find_fn(items, "alloc", impl_ty="Arena")
+    lay = arena_layout(items)
+    if f is None or lay is None:
+        r.missing("Arena::alloc / arena state struct", ARENA)
+        return None, None, None
+    f = dict(f)
+    f["body"] = materialize(f["body"], closures_only=False)
+    return items, f, lay
+
+
+@rule("ARENA-BOUNDS", ["C38"], "an arena write is bounded by the buffer it writes into: switching buffers resets the offset and the new buffer holds value plus worst-case padding; old buffers are kept")
+def arena_bounds(ctx, r):
+    items, f, lay = arena_alloc(ctx, r)
     if f is None:
-        r.missing("Arena::alloc", ARENA)
         return
+    POS, CUR, OLD = lay
     writes = [x for x in q.walk(f["body"]) if x["k"] == "Call" and q.show(x["f"]).endswith("ptr::write")]
     r.count("raw writes", len(writes), 1, ARENA)
-    swaps = [x for x in q.walk(f["body"]) if x["k"] == "If" and any(z["k"] == "Call" and q.show(z["f"]).endswith("mem::replace") and "current_buf" in q.show(z["args"][0]) for z in q.walk(x["t"]))]
+    swaps = [x for x in q.walk(f["body"]) if x["k"] == "If" and any(z["k"] == "Call" and q.show(z["f"]).endswith("mem::replace") and CUR in q.show(z["args"][0]) for z in q.walk(x["t"]))]
     if not swaps:
         r.missing("alloc:buffer-switch", ARENA)
         return
     sw = swaps[0]
     c = q.show(sw["c"]).replace(" ", "")
-    r.ob("current_buf.len()" in c and (">" in c), "arena.rs:alloc:bounds-check", ARENA, sw["l"], f"the buffer is switched under `{c}`: it must compare the end of the new allocation with the length of the current buffer", sample=f"alloc: switch iff {c}")
+    r.ob(f"{CUR}.len()" in c and (">" in c), "arena.rs:alloc:bounds-check", ARENA, sw["l"], f"the buffer is switched under `{c}`: it must compare the end of the new allocation with the length of the current buffer", sample=f"alloc: switch iff {c}")
     # the comparison must bound the very extent that is written: every additive term of `start` and the size
     def terms(e):
         while e["k"] == "Paren":
@@ -163,32 +196,30 @@ def arena_bounds(ctx, r):
              sample=f"alloc: bounds check covers {sorted(need)}")
     else:
         r.missing("alloc:bounds comparison / start", ARENA)
-    resets = [x for x in q.walk(sw["t"]) if x["k"] == "Assign" and q.show(x["a"]).endswith(".offset")]
+    resets = [x for x in q.walk(sw["t"]) if x["k"] == "Assign" and q.show(x["a"]).endswith("." + POS)]
     r.ob(bool(resets) and q.show(resets[0]["b"]) == "0", "arena.rs:alloc:offset-not-reset-on-buffer-switch", ARENA, sw["l"],
          "after replacing current_buf the write offset still counts from the old buffer: the bounds check above was made against the old length, so the write lands past the end of the new buffer when the allocation is larger than the previous buffer (a u8 then a u64 on an empty arena)",
          sample="alloc: offset = 0 in the buffer-switch branch")
     # start is computed after the switch from the (possibly reset) offset
     starts = [x for x in q.walk(f["body"]) if x["k"] == "Local" and q.pat_bindings(x["pat"]) == [posv]]
-    r.ob(bool(starts) and starts[0]["l"] > sw["l"] and "offset" in q.show(starts[0]["init"]), "arena.rs:alloc:start-before-switch", ARENA, f["l"], "the write position must be computed after the buffer switch from the current offset")
+    r.ob(bool(starts) and starts[0]["l"] > sw["l"] and POS in q.idents_in(starts[0]["init"]) | {x["f"] for x in q.walk(starts[0]["init"]) if x["k"] == "Field"}, "arena.rs:alloc:start-before-switch", ARENA, f["l"], "the write position must be computed after the buffer switch from the current offset")
     # capacity of the new buffer covers size and padding
     caps = [q.show(x["args"][0]) for x in q.walk(sw["t"]) if x["k"] == "MethodCall" and x["m"] == "max"]
     ok = any("size" in c_ and ("align" in c_ or "padding" in c_) for c_ in caps)
     r.ob(ok, "arena.rs:alloc:new-buffer-too-small-for-padding", ARENA, sw["l"], f"the new buffer must hold at least one value plus its worst-case padding (`.max(size + align)`); it is sized with max({caps})", sample=f"alloc: new capacity max({caps})")
     # old buffers are only pushed
-    bad = [x["m"] for g, _ in q.iter_items(items) if g["k"] == "Fn" and g.get("body") is not None for x in q.walk(g["body"]) if x["k"] == "MethodCall" and q.show(x["recv"]).endswith("old_bufs") and x["m"] != "push"]
-    pushed = any(x["k"] == "MethodCall" and x["m"] == "push" and q.show(x["recv"]).endswith("old_bufs") for x in q.walk(sw["t"]))
+    bad = [x["m"] for g, _ in q.iter_items(items) if g["k"] == "Fn" and g.get("body") is not None for x in q.walk(g["body"]) if x["k"] == "MethodCall" and q.show(x["recv"]).endswith(OLD) and x["m"] != "push"]
+    pushed = any(x["k"] == "MethodCall" and x["m"] == "push" and q.show(x["recv"]).endswith(OLD) for x in q.walk(sw["t"]))
     r.ob(pushed and not bad, "arena.rs:old-buffers-dropped", ARENA, sw["l"], f"replaced buffers must be kept alive for the arena's lifetime (pushed: {pushed}; other operations on old_bufs: {bad})", sample="alloc: old buffer pushed to old_bufs")
     # the offset advances past the value
-    adv = [x for x in q.walk(f["body"]) if x["k"] == "Assign" and q.show(x["a"]).endswith(".offset")]
+    adv = [x for x in q.walk(f["body"]) if x["k"] == "Assign" and q.show(x["a"]).endswith("." + POS)]
     r.ob(any(q.show(x["b"]).replace(" ", "") == f"({posv}+size)" for x in adv), "arena.rs:alloc:offset-advance", ARENA, f["l"], "after a write the offset must advance to start + size (allocations must not overlap)", sample="alloc: offset = start + size")
 
 
 @rule("ARENA-ALIGN", ["C38"], "padding is computed from the address (the byte buffers have alignment 1) and recomputed after a buffer switch")
 def arena_align(ctx, r):
-    items = ctx.file_items(ARENA)
-    f = q.find_fn(items, "alloc", impl_ty="Arena") if items else None
+    items, f, lay = arena_alloc(ctx, r)
     if f is None:
-        r.missing("Arena::alloc", ARENA)
         return
     # every `% align` must be applied to a value derived from a pointer address
     mods = [x for x in q.walk(f["body"]) if x["k"] == "Binary" and x["op"] == "%" and q.show(x["b"]) == "align"]
